@@ -66,15 +66,28 @@ FORESTS = [
 ]
 
 
-def _spy(gen, rec):
-    """Transparent delegation that records how the wrapped plan ended (for the oracle only)."""
+def _spy(gen, rec, ctx=None):
+    """Transparent delegation that records which of its Msg objects the wrapped plan yields (["y", id]) and how it
+    ended (for the oracle and the finding mirrors only)."""
     try:
-        r = yield from gen
+        m = gen.send(None)
+        while True:
+            rec.append(["y", ctx.msg_id.get(id(m)) if ctx is not None else None])
+            try:
+                ans = yield m
+            except GeneratorExit:
+                gen.close()
+                raise
+            except BaseException as e:  # noqa: BLE001
+                m = gen.throw(e)
+            else:
+                m = gen.send(ans)
+    except StopIteration as e:
+        rec.append(["r", D.canon_val(e.value, ctx)])
+        return e.value
     except BaseException as e:  # noqa: BLE001
         rec.append(["e", D.exc_name(e)])
         raise
-    rec.append(["r", D.canon_val(r)])
-    return r
 
 
 def cases(rng, tier):
@@ -133,10 +146,31 @@ def cases(rng, tier):
     for p in LINNER[:3]:
         out.append({"w": "lazy", "ndev": 6, "parents": LPAR, "msgs": LMSGS, "lists": LLISTS, "plan": p, "mode": "exh",
                     "depth": 4 if quick else 5, "alpha": [SEND0, ["send", 0], ["send", 3], ["throw", "User0"], ["close"]]})
+    # ---- monitor_during_wrapper / fly_during_wrapper: runs opened and closed by the wrapped plan
+    DM = [["open"], ["cmd", 0, 0], ["close", None, None], ["open"], ["close", "fail", None], ["cmd", 2, 1]]
+    DINNER = [seq(Y(0), Y(1), Y(2)),                                   # one run
+              seq(Y(0), Y(1), Y(2), Y(3), Y(5), Y(4)),                 # two runs
+              seq(Y(0), Y(3), Y(1), Y(4), Y(2)),                       # nested runs
+              seq(Y(1), Y(2)),                                         # close without open
+              seq(Y(0, 0), Y(1), Y(2, 1), ["return", ["var", 0]]),     # returns the answer to open_run
+              ["try", seq(Y(0), Y(1), Y(2)), [["exc", Y(4)]], ["pass"], ["pass"]],       # closes the run on failure
+              ["try", seq(Y(0), Y(1)), [], ["pass"], Y(2)],                                # closes in finally
+              seq(Y(0), ["raise", "User1"]),
+              ["pass"],
+              seq(Y(0), Y(1), Y(2), Y(0), Y(5), Y(2))]                 # the same open/close Msg objects again (cached plan)
+    for w in ("monitor", "fly"):
+        for devs in ([0], [1, 0], []):
+            for i, p in enumerate(DINNER):
+                if quick and (i + len(devs)) % 2 and devs != [1, 0]:
+                    continue
+                out.append({"w": w, "ndev": 2, "devs": devs, "msgs": DM, "plan": p, "mode": "inject",
+                            "base": SEND0 if i % 2 else ["send", 1]})
+        out.append({"w": w, "ndev": 2, "devs": [0], "msgs": DM, "plan": DINNER[0], "mode": "exh", "depth": 5 if quick else 6,
+                    "alpha": [SEND0, ["send", 1], ["throw", "User0"], ["throw", "RequestAbort"], ["close"]]})
     # ---- random wrapped plans
     nrand = 60 if quick else 1500
     for _ in range(nrand):
-        w = rng.choice(["stage", "suspend", "subs", "run", "lazy"])
+        w = rng.choice(["stage", "suspend", "subs", "run", "lazy", "monitor", "fly"])
         c = {"w": w, "ndev": 5, "parents": [[2, 0], [3, 1], [4, 3]], "msgs": MSGS_PLAIN, "plan": rand_plan(rng), "mode": "inject",
              "base": rng.choice([SEND0, ["send", 1], ["send", 50]]) if w != "subs" else SEND0, "pairs": 6, "rand": True}
         if w == "stage":
@@ -144,6 +178,8 @@ def cases(rng, tier):
         elif w == "suspend":
             c["susps"] = [rng.randrange(3) for _ in range(rng.randint(0, 3))]
             c["single"] = False
+        elif w in ("monitor", "fly"):
+            c.update(ndev=2, msgs=DM, devs=[rng.randrange(2) for _ in range(rng.randint(0, 2))], plan=remap(rand_plan(rng), rng, 6))
         elif w == "lazy":
             c.update(ndev=6, parents=LPAR, msgs=LMSGS, lists=LLISTS, plan=remap(rand_plan(rng), rng, 6),
                      base=rng.choice([SEND0, ["send", 0], ["send", 3]]))
@@ -194,7 +230,7 @@ def builder(case, rec=None):
     def build(ctx):
         plan = ctx.plan(case["plan"])
         if rec is not None:
-            plan = _spy(plan, rec)
+            plan = _spy(plan, rec, ctx)
         if w == "stage":
             return bp.stage_wrapper(plan, [ctx.devs[i] for i in case["devices"]])
         if w == "suspend":
@@ -213,6 +249,10 @@ def builder(case, rec=None):
             return bp.run_wrapper(plan)
         if w == "lazy":
             return bp.lazily_stage_wrapper(plan)
+        if w == "monitor":
+            return bp.monitor_during_wrapper(plan, [ctx.devs[i] for i in case["devs"]])
+        if w == "fly":
+            return bp.fly_during_wrapper(plan, [ctx.devs[i] for i in case["devs"]])
         raise ValueError(w)
     return build
 
@@ -277,6 +317,9 @@ def coq_term(case, obs):
         return "c23_subs %s %s %s %s %s" % (subs, sets, T, P, R)
     if w == "run":
         return "c23_run %s %s %s" % (T, P, R)
+    if w in ("monitor", "fly"):
+        fc = "true" if finding(case, obs) == "c" else "false"
+        return "c23_during %s %s %s %s %s %s" % ("true" if w == "fly" else "false", D.c_list(case["devs"]), T, P, fc, R)
     if w == "lazy":
         par = "[" + "; ".join("(%d, %d)" % (c, p) for c, p in case.get("parents", [])) + "]"
         lists = "[" + "; ".join(D.c_list(l) for l in case["lists"]) + "]"
@@ -361,6 +404,10 @@ def oracle(case, obs):
             if ends_plainly(s, t) and len(t) > 1 and (not un or all_sends_after(s, t, un[0][0])):
                 if set(map(repr, ut)) != set(map(repr, got)):
                     return "script %s ends with %s: tokens received %s, unsubscribed %s" % (s, t[-1], got, ut)
+        elif w in ("monitor", "fly"):
+            why = during_oracle(case, s, t)
+            if why:
+                return "script %s: %s" % (s, why)
         elif w == "lazy":
             why = lazy_oracle(case, s, t)
             if why:
@@ -374,6 +421,7 @@ def oracle(case, obs):
                 if cl:
                     return "script %s: close_run although the open_run did not succeed" % (s,)
                 continue
+            rec = [r for r in rec if r[0] != "y"]
             want = None
             if rec and rec[0][0] == "r":
                 want = ["close", None, None]
@@ -429,7 +477,58 @@ def lazy_oracle(case, s, t):
     return None
 
 
+def during_lists(case):
+    devs = case["devs"]
+    if case["w"] == "monitor":
+        return [["monitor", d] for d in devs], [["unmonitor", d] for d in devs]
+    after = [["kickoff", d, 102] for d in devs] + ([["wait", 102]] if devs else [])
+    before = [["complete", d, 103] for d in devs] + ([["wait", 103]] if devs else []) + [["collect", d] for d in devs]
+    return after, before
+
+
+def during_oracle(case, s, t):
+    """every close_run of the wrapped plan leaves only right after unmonitor of each signal / complete of each flyer, wait,
+    collect of each flyer; every open_run is followed by monitor of each signal / kickoff of each flyer, wait, for as long
+    as the messages are answered (a Msg object the plan yields a second time is finding class C23-c)"""
+    after, before = during_lists(case)
+    first = set()
+    for i, o in enumerate(t):
+        if o[0] != "y" or o[1] != "id":
+            continue
+        v = case["msgs"][o[2]]
+        again = o[2] in first
+        first.add(o[2])
+        if v[0] == "close":
+            got = [x[2] for x in t[max(0, i - len(before)):i] if x[0] == "y" and x[1] == "v"]
+            if got != before:
+                if again:
+                    return "C23-c: the close_run Msg object yielded again left without the messages before it"
+                return "close_run left the wrapper after %s, expected %s right before it" % (got, before)
+        if v[0] == "open":
+            for j, want in enumerate(after):
+                k = i + 1 + j
+                if k >= len(t) or s[k][0] != "send":
+                    break
+                if not (t[k][0] == "y" and t[k][1] == "v" and t[k][2] == want):
+                    if again:
+                        return "C23-c: the open_run Msg object yielded again was not followed by the messages after it"
+                    return "open_run was followed by %s, expected %s" % (t[k], want)
+    return None
+
+
 def finding(case, obs):
+    """Mirrors of the finding classes.  C23-b: the inserted stage message is answered with a Status (not iterable).
+    C23-c: the wrapped plan yields the same open_run / close_run Msg object a second time."""
+    if case["w"] in ("monitor", "fly"):
+        for s, t, rec in obs["runs"]:
+            ids = [r[1] for r in rec if r[0] == "y" and r[1] is not None and case["msgs"][r[1]][0] in ("open", "close")]
+            if len(ids) != len(set(ids)):
+                return "c"
+        return None
+    return finding_b(case, obs)
+
+
+def finding_b(case, obs):
     """Mirror of finding class C23-b: the inserted stage message is answered with a Status (not iterable)."""
     if case["w"] != "lazy":
         return None
@@ -442,7 +541,8 @@ def finding(case, obs):
 
 
 def nontrivial(case, obs):
-    kinds = {"stage": "unstage", "suspend": "remove", "subs": "unsubscribe", "run": "close", "lazy": "unstage"}
+    kinds = {"stage": "unstage", "suspend": "remove", "subs": "unsubscribe", "run": "close", "lazy": "unstage",
+             "monitor": "unmonitor", "fly": "collect"}
     k = kinds.get(case["w"])
     return any(made(t, k) for _, t, _ in obs["runs"]) and any(len(t) >= 4 for _, t, _ in obs["runs"])
 
